@@ -99,7 +99,7 @@ def show(line, verdict):
             k = p.next(); key = txt(p.next()); v = txt(p.next())
             print("  %-7s %-10s = %s" % (KN[k], key, v))
         print("raw body:", txt(p.next())); print("uri:", txt(p.next()))
-        print("body kind:", ["none", "form", "json"][p.next()])
+        print("body kind:", ["none", "form", "json", "form(other carrier)"][p.next()])
         ni = p.next()
         for _ in range(ni):
             k = p.next(); key = txt(p.next()); v = txt(p.next())
